@@ -96,6 +96,8 @@ fn mutate(rng: &mut Rng, l: &str) -> String {
 }
 
 const FUEL: u64 = 3_000_000;
+/// the big execute() quantum; under Miri everything is scaled down
+const QBIG: usize = if cfg!(miri) { 120 } else { 5000 };
 
 impl Prop for C03 {
     fn cases(&self, tier: Tier) -> u64 {
@@ -124,7 +126,7 @@ impl Prop for C03 {
     }
 
     fn run_case(&mut self, idx: u64, rng: &mut Rng, ctx: &mut Ctx) {
-        if idx % 12 == 11 {
+        if idx % 12 == 11 && !cfg!(miri) {
             return self.edge_case(rng, ctx);
         }
         let o = Opts { data: true, func: true, tron: rng.coin(), stop: true, max_lines: 24, input: true, frac: rng.coin() };
@@ -132,7 +134,7 @@ impl Prop for C03 {
         let plines = gen::render_spelled(&p, rng.next_u64());
         let mut s = Session::new();
         let mut script: Vec<String> = vec![];
-        let n = rng.range(8, 60);
+        let n = if cfg!(miri) { rng.range(5, 14) } else { rng.range(8, 60) };
         let mut waiting_input = false;
         // calling protocol (src/term/mod.rs, debug_assert in Runtime::enter): enter() only after
         // execute() returned Stopped, Input or Inkey
@@ -154,7 +156,7 @@ impl Prop for C03 {
                 let mut got = false;
                 for round in 0..2 {
                     for _ in 0..40 {
-                        match guarded!("execute 5000".to_string(), s.step_q(5000)) {
+                        match guarded!(format!("execute {}", QBIG), s.step_q(QBIG)) {
                             Some(Stop::Stopped) | Some(Stop::Input(..)) | Some(Stop::Inkey) => {
                                 got = true;
                                 break;
@@ -221,7 +223,7 @@ impl Prop for C03 {
                     guarded!(format!("enter {:?}", c), s.enter(&c));
                 }
                 10..=14 => {
-                    let q = *rng.pick(&[0usize, 1, 2, 17, 5000, 5000]);
+                    let q = *rng.pick(&[0usize, 1, 2, 17, QBIG, QBIG]);
                     let k = rng.range(1, 12);
                     for _ in 0..k {
                         let st = guarded!(format!("execute {}", q), s.step_q(q));
@@ -243,7 +245,7 @@ impl Prop for C03 {
                         guarded!("interrupt".to_string(), s.interrupt());
                         let mut at_prompt = false;
                         for _ in 0..8 {
-                            if let Some(Stop::Stopped) = guarded!("execute 5000".to_string(), s.step_q(5000)) {
+                            if let Some(Stop::Stopped) = guarded!(format!("execute {}", QBIG), s.step_q(QBIG)) {
                                 at_prompt = true;
                                 break;
                             }
@@ -318,7 +320,7 @@ fn finish_session(s: &mut Session, script: &mut Vec<String>, ctx: &mut Ctx) {
     guard!(script, "interrupt".to_string(), s.interrupt());
     let mut reached = false;
     for _ in 0..64 {
-        let st = guard!(script, "execute 5000".to_string(), s.step_q(5000));
+        let st = guard!(script, format!("execute {}", QBIG), s.step_q(QBIG));
         match st {
             Some(Stop::Stopped) => {
                 reached = true;
@@ -355,7 +357,7 @@ fn finish_session(s: &mut Session, script: &mut Vec<String>, ctx: &mut Ctx) {
     guard!(script, "enter \"PRINT 7*6\"".to_string(), s.enter("PRINT 7*6"));
     let mut ok = false;
     for _ in 0..16 {
-        if let Some(Stop::Stopped) = guard!(script, "execute 5000".to_string(), s.step_q(5000)) {
+        if let Some(Stop::Stopped) = guard!(script, format!("execute {}", QBIG), s.step_q(QBIG)) {
             ok = true;
             break;
         }
@@ -384,7 +386,7 @@ impl C03 {
         let mut s = Session::new();
         let mut script: Vec<String> = vec![];
         for _ in 0..4 {
-            guard!(script, "execute 5000".to_string(), s.step_q(5000));
+            guard!(script, format!("execute {}", QBIG), s.step_q(QBIG));
         }
         for i in 0..nlines.max(1) {
             let mut l = format!("{} {}", i + 1, if data { "DATA " } else { "A=" });
@@ -403,7 +405,7 @@ impl C03 {
             s.enter(&l);
             mon::unlimited_fuel();
             for _ in 0..4 {
-                if s.step_q(5000) == Some(Stop::Stopped) {
+                if s.step_q(QBIG) == Some(Stop::Stopped) {
                     break;
                 }
             }
@@ -413,7 +415,7 @@ impl C03 {
             let c = *rng.pick(&["PRINT 1", "RUN", "LIST 1-1", "NEW", "DELETE 2-", "CLEAR", "SAVE \"F\"", "RENUM", "A=1:PRINT A", "GOTO 1", "1", "2 PRINT 2", "READ A:PRINT A", "CONT"]);
             guard!(script, format!("enter {:?}", c), s.enter(c));
             for _ in 0..400 {
-                if guard!(script, "execute 5000".to_string(), s.step_q(5000)) == Some(Stop::Stopped) {
+                if guard!(script, format!("execute {}", QBIG), s.step_q(QBIG)) == Some(Stop::Stopped) {
                     break;
                 }
             }
@@ -474,12 +476,12 @@ impl C03 {
         let mut s = Session::new();
         let mut script: Vec<String> = vec![];
         for _ in 0..4 {
-            guard!(script, "execute 5000".to_string(), s.step_q(5000));
+            guard!(script, format!("execute {}", QBIG), s.step_q(QBIG));
         }
         for l in &lines {
             guard!(script, format!("enter {:?}", l), s.enter(l));
             for _ in 0..4 {
-                if guard!(script, "execute 5000".to_string(), s.step_q(5000)) == Some(Stop::Stopped) {
+                if guard!(script, format!("execute {}", QBIG), s.step_q(QBIG)) == Some(Stop::Stopped) {
                     break;
                 }
             }
@@ -488,7 +490,7 @@ impl C03 {
         let replies = ["1,2,3,4,5", "x", "\"a", "7", "", "\"", "1,\",3,4,\""];
         let mut max_stack = 0usize;
         for round in 0..400 {
-            let st = guard!(script, "execute 5000".to_string(), s.step_q(5000));
+            let st = guard!(script, format!("execute {}", QBIG), s.step_q(QBIG));
             max_stack = max_stack.max(s.rt.verif_probe().stack.len());
             match st {
                 Some(Stop::Stopped) => break,
@@ -497,7 +499,7 @@ impl C03 {
                         guard!(script, "interrupt".to_string(), s.interrupt());
                         let mut at_prompt = false;
                         for _ in 0..8 {
-                            if guard!(script, "execute 5000".to_string(), s.step_q(5000)) == Some(Stop::Stopped) {
+                            if guard!(script, format!("execute {}", QBIG), s.step_q(QBIG)) == Some(Stop::Stopped) {
                                 at_prompt = true;
                                 break;
                             }
